@@ -104,3 +104,24 @@ Definition run_spec (p : run_params) (d : dir) : option (report * option report)
 Definition run_history (h : list (run_params * dir)) : list (option (report * option report) * list bytes) :=
   map (fun s => run_uploader (fst s) (snd s)) h.
 
+
+(* ---------------------------------------------------------------- the configuration is fetched by every Run *)
+
+(* upload.Run (run.go newUploader, mode on) downloads the LATEST version of
+   the upload configuration module at every Run: configstore.Download runs the
+   go command, nothing is kept from an earlier Run of the process.  A store is
+   the list of published versions, oldest first. *)
+Definition cfg_store := list (bytes * upload_cfg).
+Definition latest_config (st : cfg_store) : option (bytes * upload_cfg) :=
+  match rev st with x :: _ => Some x | [] => None end.
+
+(* one Run against the store as it is now (no version: the download fails and the Run does nothing) *)
+Definition run_fetching (st : cfg_store) (p : run_params) (d : dir) : option (report * option report) * list bytes :=
+  match latest_config st with
+  | Some (v, u) => run_uploader (mkRun (rp_gate p) u v (rp_week p) (rp_lastweek p) (rp_x p) (rp_start p)) d
+  | None => (None, [])
+  end.
+
+(* a process: Runs against the store and the directory as each Run finds them *)
+Definition run_fetching_history (h : list (cfg_store * run_params * dir)) :=
+  map (fun s => run_fetching (fst (fst s)) (snd (fst s)) (snd s)) h.
